@@ -97,7 +97,7 @@ package prolog
 //@ global monotone-flag prolog.Solutions.done C12
 
 //@ func convertAssignAny
-//@   property C15
+//@   property C12 C15
 //@   requires d != nil
 //@   nosafety
 //@   trusted-frame
